@@ -111,6 +111,12 @@ def aad_view(ex, st, v):
     return ex.bytes_view(st, v)
 
 
+def distinct_tag(q, ent):
+    """tags of different sealed messages do not collide (2^-128): keeps the log lookup unambiguous"""
+    for other in q.ghost.get('sealed', []):
+        q.pcs.append(ent.tag != other.tag)
+
+
 def install(ex, mode='attack'):
     """put the ideal models in front of the havoc ones (crypto.install must already have run)"""
     assert mode in ('attack', 'exact')
@@ -229,6 +235,7 @@ def install(ex, mode='attack'):
 
         def app(q):
             ex.store(q.st, tr.base, tr.proj, nbuf)
+            distinct_tag(q, ent)
             q.ghost.setdefault('sealed', []).append(ent)
             record(q, 'seal', ent, nb, c.kid)
         return [dict(value=res_ok(U()), apply=app)]
@@ -247,6 +254,7 @@ def install(ex, mode='attack'):
 
         def app(q):
             ex.bytes_fill(q.st, s, fresh_bytes('ct'), bv64(0), sl)
+            distinct_tag(q, ent)
             q.ghost.setdefault('sealed', []).append(ent)
             record(q, 'seal', ent, nb, c.kid)
         return [dict(value=res_ok(Arr(tagarr, 'u8', TAG)), apply=app)]
